@@ -1,12 +1,15 @@
 package rules
 
 import (
+	"fmt"
 	"go/token"
 	"go/types"
+	"strings"
 
 	"golang.org/x/tools/go/ssa"
 
 	"gofasta-verif/core"
+	"gofasta-verif/eval"
 	"gofasta-verif/oracle"
 )
 
@@ -170,5 +173,119 @@ func c06Fanout(c *core.Ctx) {
 			continue
 		}
 		checkFanout(c, "R4/fan-out/"+e.split, s)
+	}
+	checkClosestSplit(c, "R4")
+}
+
+// checkClosestSplit interprets closest.splitInput / splitInputN in the sequential pipeline model with the per-query
+// worker replaced by a recorder: one worker per query, with the options in their places, every worker is sent every
+// target in file order, its channel is closed afterwards and completion is signalled once; a target alignment of
+// another width than the queries is reported on the error channel.
+func checkClosestSplit(c *core.Ctx, rule string) {
+	recT := namedType(c, "pkg/fastaio", "EncodedFastaRecord")
+	for _, e := range []struct{ split, worker string }{{"splitInput", "findClosest"}, {"splitInputN", "findClosestN"}} {
+		key := rule + "/" + e.split + "/every-target-to-every-query"
+		fn := c.LookupFunc("pkg/closest", e.split)
+		w := c.LookupFunc("pkg/closest", e.worker)
+		if fn == nil || w == nil || recT == nil {
+			c.Und(key, token.NoPos, "UNRESOLVED anchors closest.%s / %s", e.split, e.worker)
+			continue
+		}
+		mk := func(id string, idx int64, width int) eval.Value {
+			r := absValue(recT, id, eval.K(int64(width))).(*eval.StructVal)
+			r.F["ID"] = eval.S(id)
+			r.F["Description"] = eval.S(id)
+			r.F["Idx"] = eval.K(idx)
+			vs := make([]eval.Value, width)
+			for i := range vs {
+				vs[i] = eval.K(136)
+			}
+			r.F["Seq"] = eval.NewSlice(vs...)
+			return r
+		}
+		var bad []string
+		for _, nq := range []int{1, 3} {
+			for _, tw := range []int{4, 5} { // targets of the queries' width, and of another width
+				type started struct {
+					args []string
+					in   *eval.ChanVal
+				}
+				var ws []started
+				ev := newEval(c)
+				ev.Pipeline = true
+				ev.Extern[w.FullName()] = func(ev *eval.Evaluator, pos token.Pos, recv eval.Value, args []eval.Value) eval.Value {
+					var st started
+					for _, a := range args {
+						if ch, ok := unref(a).(*eval.ChanVal); ok {
+							if st.in == nil {
+								st.in = ch
+							}
+							st.args = append(st.args, "chan")
+							continue
+						}
+						st.args = append(st.args, renderWire(a))
+					}
+					ws = append(ws, st)
+					return nil
+				}
+				var qs, feed []eval.Value
+				for i := 0; i < nq; i++ {
+					qs = append(qs, mk(fmt.Sprintf("q%d", i), int64(i), 4))
+				}
+				var wantT []string
+				for i := 0; i < 3; i++ {
+					feed = append(feed, mk(fmt.Sprintf("t%d", i), int64(i), tw))
+					wantT = append(wantT, fmt.Sprintf("t%d", i))
+				}
+				out, errs, done := &eval.ChanVal{Name: "out"}, &eval.ChanVal{Name: "err"}, &eval.ChanVal{Name: "done"}
+				in := &eval.ChanVal{Name: "in", Feed: feed}
+				label := fmt.Sprintf("%d queries of width 4, 3 targets of width %d", nq, tw)
+				var err error
+				if e.split == "splitInput" {
+					_, err = ev.CallFunc(fn, eval.NewSlice(qs...), eval.S("snp"), in, out, errs, done)
+				} else {
+					_, err = ev.CallFunc(fn, eval.NewSlice(qs...), eval.K(7), eval.FConst(0.5), eval.S("snp"), in, out, errs, done)
+				}
+				if err != nil {
+					bad = append(bad, fmt.Sprintf("[%s] undecided: %v", label, err))
+					continue
+				}
+				if tw != 4 {
+					if len(errs.Sent) == 0 {
+						bad = append(bad, fmt.Sprintf("[%s] no error is reported for targets of another width than the queries", label))
+					}
+					continue
+				}
+				if len(ws) != nq || len(errs.Sent) != 0 || len(done.Sent) != 1 {
+					bad = append(bad, fmt.Sprintf("[%s] %d workers, %d errors, %d completion signals", label, len(ws), len(errs.Sent), len(done.Sent)))
+					continue
+				}
+				for i, st := range ws {
+					want := fmt.Sprintf("record(q%d), \"snp\", chan, chan", i)
+					if e.split == "splitInputN" {
+						want = fmt.Sprintf("record(q%d), 7, 0.5, \"snp\", chan, chan", i)
+					}
+					if got := strings.Join(st.args, ", "); got != want && !c.SigChanged("pkg/closest", e.worker) {
+						bad = append(bad, fmt.Sprintf("[%s] worker %d is %s(%s), want (%s)", label, i, e.worker, got, want))
+					}
+					var gotT []string
+					if st.in != nil {
+						for _, v := range st.in.Sent {
+							if sv, ok := v.(*eval.StructVal); ok {
+								if id, ok := sv.F["ID"].(eval.Str); ok {
+									gotT = append(gotT, id.Const())
+								}
+							}
+						}
+					}
+					if st.in == nil || strings.Join(gotT, ",") != strings.Join(wantT, ",") {
+						bad = append(bad, fmt.Sprintf("[%s] the worker of query %d is sent %v, want every target in file order %v", label, i, gotT, wantT))
+					} else if !st.in.Closed {
+						bad = append(bad, fmt.Sprintf("[%s] the input channel of query %d's worker is never closed", label, i))
+					}
+				}
+			}
+		}
+		c.Ob(key, len(bad) == 0, fn.Pos(), "%s", first(bad, 3))
 	}
 }
